@@ -256,10 +256,24 @@ package object
 //@ scan[C09.immutable.GoMethod] C09 fieldwriters GoMethod.*: newGoMethod
 
 // Assumed frames of two constructors used while wrapping compiled code (they build fresh objects).
-//@ func NewFunction
+// C03: the default values the VM copies into the slots of parameters a call left out are objects. callFunction reads
+// defaults[i] for i from the number of arguments given - at least len(parameters) - defaultsCount, the required count -
+// to the end: every entry in that range is a non-nil object (KF-83 fixed: a nil default after a real default was kept as
+// a Go nil and not counted: `func f(a=1, b=nil) { return [b] }; f(5)` handed the host a list holding a Go nil).
+// Assumed: the compiler stores only int64, float64, bool and string values as defaults (compileFunc's switch), and
+// FromGoType answers an object for those; a function has as many default entries as parameters.
+//@ func FromGoType
 //@ trusted
+//@ ensures oneof(typeof(obj), int64, float64, bool, string) ==> result != nil
+//@ func NewFunction
+//@ props C03
+//@ trusted except C03.func.defaults.objects
 //@ modifies nothing
+//@ assume[defaults.scalar] fn != nil && forall(k, 0, len(fn.defaults), fn.defaults[k] == nil || oneof(typeof(fn.defaults[k]), int64, float64, bool, string))
+//@ invariant 1: len(defaults) == i && 0 <= defaultsCount && defaultsCount <= i && (!seenDefault ==> defaultsCount == 0) && forall(k, i - defaultsCount, i, defaults[k] != nil) && (cap(defaults) == 0 || fresh(defaults))
+//@ invariant 2: 0 <= defaultsCount && defaultsCount <= len(defaults) && forall(k, len(defaults) - defaultsCount, len(defaults), defaults[k] != nil)
 //@ ensures result != nil && fresh(result)
+//@ ensures[C03.func.defaults.objects] result != nil && 0 <= result.defaultsCount && result.defaultsCount <= len(result.defaults) && forall(k, len(result.defaults) - result.defaultsCount, len(result.defaults), result.defaults[k] != nil)
 //@ func NewString
 //@ trusted
 //@ modifies nothing
